@@ -5,6 +5,7 @@
   row reader.  Go's `flag` parsing, process exit codes and stdout plumbing are decided at run time (family `cli`).
 -/
 import PgVerif.Proofs.ClusterClass
+import PgVerif.Proofs.RemoteQuery
 import PgVerif.Model.Cli
 namespace PgVerif.Props.C12
 open PgVerif PgVerif.Model PgVerif.Proofs PgVerif.Proofs.Cluster List
@@ -71,44 +72,9 @@ theorem C12_remote_cols (rr : RowReader) (fs : RemoteReader) (db tbl : Nat) (cd 
   simp only [hc, ha, ht, ok_bind]
   cases parsePGAttribute rr ad (rcVersionInt fs) <;> rfl
 
-/-- the effect of QueryOptions on a row list: projection (when columns are named) then limit (when positive) -/
-def applyQuery (o : QueryOptions) (rows : List Row) : List Row :=
-  let rows := if o.columns.length > 0 then rows.map (projectRow o.columns) else rows
-  if o.limit > 0 ∧ (rows.length : Int) > o.limit then rows.take o.limit.toNat else rows
-
-/-- **Query.**  A query with projection and limit returns the unrestricted result (the rows of `DumpTable`),
-projected row by row onto the named columns that exist and cut to the first `limit` rows — for every table,
-file system and row reader. -/
-theorem C12_query (rr : RowReader) (fs : RemoteReader) (db : Nat) (t : Option TableInfo) (attrs : List AttrInfo)
-    (o : QueryOptions) :
-    queryWith rr fs db t attrs (some o) = (queryWith rr fs db t attrs none).map (applyQuery o) := by
-  unfold queryWith
-  cases t with
-  | none => simp [applyQuery, Except.map, pure, Except.pure]
-  | some t =>
-    simp only
-    by_cases h0 : t.filenode = 0
-    · simp [h0, applyQuery, Except.map, pure, Except.pure]
-    · simp only [if_neg h0]
-      cases fs (basePath db t.filenode) with
-      | none => simp [applyQuery, Except.map, pure, Except.pure]
-      | some data =>
-        simp only
-        cases readTableRows rr data (attrs.map fun a => ⟨a.name, a.typid, a.len, a.num, a.align⟩) with
-        | error e => rfl
-        | ok rows => simp only [ok_bind, pure_eq_ok, Except.map, applyQuery]
-
-/-- the rows of `DumpTable` are the unrestricted query, and its row count is their number -/
-theorem C12_dumpTable_rows (rr : RowReader) (fs : RemoteReader) (db : Nat) (t : TableInfo) (attrs : List AttrInfo)
-    (td : TableDump) (h : dumpTableWith rr fs db t attrs = .ok td) :
-    queryWith rr fs db (some t) attrs none = .ok td.rows ∧ td.rowCount = td.rows.length := by
-  unfold dumpTableWith at h
-  cases hq : queryWith rr fs db (some t) attrs none with
-  | error e => simp [hq] at h
-  | ok rows =>
-    simp only [hq, ok_bind, pure_eq_ok] at h
-    injection h with h; subst h
-    exact ⟨rfl, rfl⟩
+/-! The former `C12_query` / `C12_dumpTable_rows` (definitional copies of two lines of `Model.queryWith`, review finding A5) are
+gone: what Query's projection and limit do, and that DumpTable / Query / DumpDatabase / DumpAll return the rows and tables of
+the directory dump, is stated in Props/C12Remote.lean (`C12_query_projection`, `C12_query_limit`, `C12_remote_*`). -/
 
 /-! ### names differing only in case -/
 
@@ -119,13 +85,14 @@ theorem C12_case_exact {α} (name : α → Bytes) (l : List α) (n : Bytes) (x :
   unfold findByName; rw [h]
 
 /-- **Otherwise the match is case-insensitive and deterministic**: without an exact match the lookup returns the
-first entry (in the sorted listing) whose name equals the request up to ASCII case, and nothing if there is none. -/
+first entry (in the sorted listing) whose name equals the request under Go's `strings.EqualFold` (`GoCase.goEqualFold`: ASCII
+case on ASCII names), and nothing if there is none. -/
 theorem C12_case_fold {α} (name : α → Bytes) (l : List α) (n : Bytes)
     (h : l.find? (fun y => name y == n) = none) :
     findByName name l n = l.find? (fun y => equalFold (name y) n) := by
   unfold findByName; rw [h]
 
-/-- whatever the lookup returns does match the request up to case -/
+/-- whatever the lookup returns does match the request up to case (Go's `strings.EqualFold`) -/
 theorem C12_case_sound {α} (name : α → Bytes) (l : List α) (n : Bytes) (x : α) (h : findByName name l n = some x) :
     x ∈ l ∧ equalFold (name x) n = true := by
   unfold findByName at h
@@ -135,15 +102,18 @@ theorem C12_case_sound {α} (name : α → Bytes) (l : List α) (n : Bytes) (x :
     have := List.find?_some he
     refine ⟨List.mem_of_find?_eq_some he, ?_⟩
     have hn : name y = n := by simpa using this
-    simp [equalFold, hn]
+    rw [hn]; exact Proofs.Remote.equalFold_refl n
   | none =>
     rw [he] at h
     simp only at h
     exact ⟨List.mem_of_find?_eq_some h, List.find?_some (p := fun y => equalFold (name y) n) h⟩
 
 /-- agreement with the specification of name lookup: wherever the spec determines the answer (an exact match,
-a unique case-insensitive match, or no match at all) the client returns it -/
-theorem C12_case (l : List TableInfo) (n : Bytes) (r : Option TableInfo)
+a unique case-insensitive match, or no match at all) the client returns it — for requests and names on which Go's
+`strings.EqualFold` is equality of the ASCII lower-casings (`GoCase.foldStable`: every ASCII request on ASCII names —
+`C12_case_ascii` —, also `été`; beyond that EqualFold folds by Unicode tables, K = U+212A, ſ = s, and treats every invalid byte
+as U+FFFD, and the Spec, which folds ASCII letters only, is silent: review finding C3) -/
+theorem C12_case (l : List TableInfo) (n : Bytes) (r : Option TableInfo) (hl : GoCase.foldStable (l.map (·.name)) n)
     (h : Spec.lookupName (·.name) l n = some r) : findByName (·.name) l n = r := by
   unfold Spec.lookupName at h
   unfold findByName
@@ -153,7 +123,10 @@ theorem C12_case (l : List TableInfo) (n : Bytes) (r : Option TableInfo)
     rw [he] at h
     simp only at h ⊢
     have hhead : l.find? (fun y => equalFold y.name n) = (l.filter fun y => Spec.lowerB y.name == Spec.lowerB n).head? := by
-      rw [List.head?_filter]; rfl
+      rw [List.head?_filter]
+      apply Proofs.Remote.find?_congr'
+      intro y hy
+      exact hl y.name (mem_map_of_mem hy)
     rw [hhead]
     cases hf : l.filter (fun y => Spec.lowerB y.name == Spec.lowerB n) with
     | nil => rw [hf] at h; simp at h; subst h; rfl
@@ -162,6 +135,13 @@ theorem C12_case (l : List TableInfo) (n : Bytes) (r : Option TableInfo)
       cases rest with
       | nil => simp at h; subst h; rfl
       | cons b rest' => simp at h
+
+/-- `C12_case` for ASCII requests and names -/
+theorem C12_case_ascii (l : List TableInfo) (n : Bytes) (r : Option TableInfo) (hn : Spec.asciiB n = true)
+    (hl : ∀ y ∈ l, Spec.asciiB y.name = true) (h : Spec.lookupName (·.name) l n = some r) : findByName (·.name) l n = r :=
+  C12_case l n r (GoCase.foldStable_ascii _ n hn (fun y hy => by
+    obtain ⟨t, ht, rfl⟩ := List.mem_map.mp hy
+    exact hl t ht)) h
 
 /-! ### the command line -/
 
@@ -223,12 +203,11 @@ example : noModeFlag { dataDir := [47], dbFilter := [97], sqlOutput := true } :=
 #print axioms C12_remote_dbs
 #print axioms C12_remote_tables
 #print axioms C12_remote_cols
-#print axioms C12_query
-#print axioms C12_dumpTable_rows
 #print axioms C12_case_exact
 #print axioms C12_case_fold
 #print axioms C12_case_sound
 #print axioms C12_case
+#print axioms C12_case_ascii
 #print axioms C12_cli_dump
 #print axioms C12_cli_detect
 #print axioms C12_cli_precedence
